@@ -100,7 +100,7 @@ PROPS = {
     "C10": {
         "level_text": "Lean theorems about the model of CreatePodFromDaemonSetReplicaSet / ReplaceNodeNameNodeAffinity / compareCurrentPodWithNewPod (pinning, metadata, resource resolution, round trip create->compare, detection of template / annotation / setting-value changes) for every template, node, setting and both node-assignment modes; the real constructor and the real comparison run on rich templates (affinity terms with matchFields, tolerations, several containers), nodes with well-formed / malformed / foreign override annotations and settings, the created pod is compared field by field with the model's, and the comparison is re-run on single-field perturbations.",
         "level_note": TB + "Modelled by hand: pod construction, affinity rewriting, the three-part comparison. MD5 hashes are opaque strings computed by the real functions in the harness (template hash; node override hash, whose defining property 'equal iff the (ns,eds)-prefixed sub-maps are equal' is checked by the node_hash stream); json.Unmarshal of override annotations and resource.Quantity comparison are done by the harness (quantities canonicalised to milli-values). Templates whose required node affinity has zero terms are rejected by the API server and excluded from the pinning clause.",
-        "streams": [("create_pod", 3000, 60000), ("node_hash", 1000, 20000), ("fitness", 1000, 20000), ("ers_reconcile", 1000, 20000)],
+        "streams": [("create_pod", 3000, 60000), ("node_hash", 1000, 20000), ("fitness", 1000, 20000), ("ers_reconcile", 2000, 30000)],
         "extra_theorems": [("EdsProofs.FactsBridge", "facts_tolerations"), ("EdsProofs.FactsBridge", "facts_keys")],
         "trusted_base": ["hand-written model of pod construction/comparison tied by the create_pod stream; MD5 collision freedom on the objects at hand"],
         "assumptions": COMMON_ASSUME + ["container names are unique within a pod template and within a setting (API validation for pods; by convention for settings)"],
@@ -343,3 +343,20 @@ PROPS["C07"]["level_text"] += " L3Live_converges_after_rollback: after the rollb
 
 # C09's delete bound rests on the translated limits kernel as C03's does: the bridge is an obligation of C09 too
 PROPS["C09"]["extra_theorems"] = PROPS["C09"].get("extra_theorems", []) + [("EdsProps.C03", "C03_kernel_is_source"), ("EdsProps.C03", "C03_cap")]
+
+# EdsModel/ClusterRV + EdsProps/L3RV (seventh round): the cluster machine with the resourceVersion of the
+# ExtendedDaemonSet object and STALE READS of it (informer cache lagging behind the controller's own writes).
+# A stale reconcile's writes to the object are refused (409), its replica-set Create/Delete calls are not guarded.
+L3RV = "EdsProps.L3RV"
+for _p, _pat in (("C11", "re:^RV_(fresh_is_step|fresh_run|stale_eds_untouched|stale_status_untouched|stale_frame|stale_is_faulty_step|stale_run_eds_untouched|rv_mono|version_bookkeeping)"),
+                 ("C15", "re:^RV_(canary_nodes_kept|canaryNodup_step|canary_nodup|canary_bound)"),
+                 ("C04", "re:^RV_canary_bound"),
+                 ("C05", "re:^RV_promotion_(step|history)"),
+                 ("C13", "re:^RV_(one_per_template|at_most_one_per_hash|hashesNodup_step|names_nodup|annot_gen|recovery|stale_then_fresh|stale_never_|stale_removes_only_drained|stale_keeps_seen_in_use|stale_creates_only_missing_hash)")):
+    PROPS[_p]["extra_theorems"] = PROPS[_p].get("extra_theorems", []) + [(L3RV, _pat)]
+_RVNOTE = "stale reads of the ExtendedDaemonSet object ARE modelled at L3 (EdsModel/ClusterRV, EdsProps/L3RV): the stored object is never changed by a stale reconcile (RV_stale_eds_untouched), the history invariants survive; replica-set deletions / creations are not guarded by that object's version (counterexamples proved, recovery proved)"
+for _p in ("C11", "C13", "C15", "C05", "C04"):
+    PROPS[_p]["assumptions"] = list(PROPS[_p].get("assumptions", [])) + [_RVNOTE]
+PROPS["C11"]["level_text"] += " STALE READS (EdsProps/L3RV over EdsModel/ClusterRV: resourceVersion + history of the ExtendedDaemonSet object): RV_stale_eds_untouched (a reconcile deciding from an earlier stored value never changes the stored object: status, spec, annotations, version), RV_stale_is_faulty_step (it is the L3 faulty step that drops every write to the object, taken in the world seen through the stale value), history invariants along runs with stale reconciles."
+PROPS["C15"]["level_text"] += " RV_canary_nodes_kept(_history): canary nodes selected earlier are kept by reconciles that read a stale ExtendedDaemonSet (the theorem behind clause C15.selection-kept-on-stale-read)."
+PROPS["C13"]["level_text"] += " With stale reads (EdsProps/L3RV): RV_one_per_template, RV_names_nodup, RV_annot_gen still hold along any run; 'never deletes the replica set matching the stored spec.template' does NOT (RV_stale_never_deletes_uptodate_false: deletions are not guarded by the object's resourceVersion; observed on the real Reconcile in eds_reconcile, category observed:stale-read-deleted-replica-set-of-stored-template); strongest true variants RV_stale_never_deletes_*_partial and the recovery RV_stale_then_fresh (the next fresh reconcile leaves exactly one replica set for the stored template)."
